@@ -4,6 +4,7 @@
   styled bounding box and transparency (C02).
 -/
 import EG.Lemmas.StyledRect
+import EG.Lemmas.StyledRectPixels
 import EG.Lemmas.PMap
 namespace EG
 namespace StyledRect
@@ -241,7 +242,8 @@ theorem drawCalls_of_transparent (s : Style) (r : Rect) (h : s.isTransparent = t
 
 theorem pixelsList_of_transparent (s : Style) (r : Rect) (h : s.isTransparent = true) :
     pixelsList s r = [] := by
-  unfold pixelsList
+  rw [pixelsList_eq_spec]
+  unfold pixelsSpec
   simp [h]
 
 /-! ### `pixels()` -/
@@ -263,7 +265,8 @@ theorem mem_pixelsList {s : Style} {r : Rect} (h : Guard s r) {p : Pt} {c : Colo
     (p, c) ∈ pixelsList s r ↔
       (s.isTransparent = false ∧ (strokeArea s r).contains p = true ∧
         (if (fillArea s r).contains p = true then s.fill else s.stroke) = some c) := by
-  unfold pixelsList
+  rw [pixelsList_eq_spec]
+  unfold pixelsSpec
   rw [List.mem_filterMap]
   by_cases ht : s.isTransparent = true
   · simp [ht]
@@ -278,7 +281,8 @@ theorem mem_pixelsList {s : Style} {r : Rect} (h : Guard s r) {p : Pt} {c : Colo
 
 /-- `pixels()` yields every point at most once. -/
 theorem pixelsList_nodup (s : Style) (r : Rect) : ((pixelsList s r).map Prod.fst).Nodup := by
-  unfold pixelsList
+  rw [pixelsList_eq_spec]
+  unfold pixelsSpec
   have hsub : ∀ l : List Pt, ((l.filterMap (pixelOf s r)).map Prod.fst).Sublist l := by
     intro l
     induction l with
